@@ -12,6 +12,7 @@
 import PV.Model.BufFileLemmas
 import PV.Model.BufFileULemmas
 import PV.Model.ChanFile
+import PV.Model.ChanX
 namespace PV.Props.C42
 open PV PV.BufFile
 
@@ -795,6 +796,159 @@ example :
     let f : BF Chan := setMode { s := { inp := [], rg := [], wg := [] } } "wb".toList 1 0
     let r := runC { f := f, stdin := true } [.write "ab\ncd".toUTF8.toList, .close, .close, .write [65]]
     r.1.atEof = some "ab\ncd".toUTF8.toList ∧ r.1.eofs = 2 ∧ r.1.f.s.out = "ab\ncd".toUTF8.toList := by
+  decide +kernel
+
+/-! ## a stream whose `_read` may raise (socket.timeout …) at arbitrary points; the caller retries
+
+  `chanOpsX`: short reads as before, plus `fails` — one flag per `_read` call, a raising call delivers nothing. -/
+
+/-- bytes the caller has still to receive from a raising stream -/
+def pendingX (f : BF ChanX) : Bytes := f.rbuf ++ f.s.c.inp
+
+private theorem chanOpsX_read_fail (s : ChanX) (rp : Int) (n : Nat) (rest : List Bool) (h : s.fails = true :: rest) :
+    chanOpsX.read s rp n = ({ s with fails := rest }, .error (.stream eTimeout)) := by
+  simp [chanOpsX, h]
+
+private theorem chanOpsX_read_ok (s : ChanX) (rp : Int) (n : Nat) (h : ∀ rest, s.fails ≠ true :: rest) :
+    chanOpsX.read s rp n =
+      ({ c := { s.c with inp := s.c.inp.drop (grant s.c.rg n), rg := s.c.rg.tail }, fails := s.fails.tail },
+       .ok (s.c.inp.take (grant s.c.rg n))) := by
+  cases hf : s.fails with
+  | nil => simp [chanOpsX, hf]
+  | cons b rest =>
+    cases b with
+    | true => exact absurd hf (h rest)
+    | false => simp [chanOpsX, hf]
+
+private theorem readFillLoopX (n fuel : Nat) (f : BF ChanX) (hf : f.s.c.inp.length < fuel) :
+    pendingX (readFillLoop chanOpsX n fuel f).1 = pendingX f ∧
+    ((readFillLoop chanOpsX n fuel f).2 = .ok () →
+      (n ≤ (readFillLoop chanOpsX n fuel f).1.rbuf.length ∨ (readFillLoop chanOpsX n fuel f).1.s.c.inp = [])) := by
+  induction fuel generalizing f with
+  | zero => omega
+  | succ fuel ih =>
+    rw [readFillLoop]
+    by_cases hlt : f.rbuf.length < n
+    · rw [if_pos hlt]
+      simp only
+      generalize hw : (if f.buffered = true then max f.bufsize (n - f.rbuf.length) else n - f.rbuf.length) = want
+      have hwant : 1 ≤ want := by subst hw; split <;> omega
+      have hk := grant_pos f.s.c.rg want hwant
+      cases hfl : f.s.fails with
+      | cons b rest =>
+        cases b with
+        | true =>
+          rw [chanOpsX_read_fail f.s f.realpos want rest hfl]
+          exact ⟨rfl, fun h => by cases h⟩
+        | false =>
+          rw [chanOpsX_read_ok f.s f.realpos want (by intro r h; rw [hfl] at h; cases h), hfl]
+          simp only [List.tail_cons]
+          by_cases he : (f.s.c.inp.take (grant f.s.c.rg want)).isEmpty = true
+          · have hnil := (take_isEmpty_iff _ _ hk).1 he
+            simp only [he, if_true]
+            exact ⟨by simp [pendingX, hnil], fun _ => Or.inr (by simp [hnil])⟩
+          · simp only [he]
+            have hne : f.s.c.inp ≠ [] := fun h => he ((take_isEmpty_iff _ _ hk).2 h)
+            have hlen : 0 < f.s.c.inp.length := List.length_pos_iff.2 hne
+            have := ih
+              { f with s := { c := { f.s.c with inp := f.s.c.inp.drop (grant f.s.c.rg want), rg := f.s.c.rg.tail },
+                              fails := rest },
+                       rbuf := f.rbuf ++ f.s.c.inp.take (grant f.s.c.rg want),
+                       realpos := f.realpos + (f.s.c.inp.take (grant f.s.c.rg want)).length }
+              (by simp; omega)
+            simp only [Bool.false_eq_true, if_false]
+            refine ⟨?_, this.2⟩
+            rw [this.1]; simp [pendingX, List.append_assoc]
+      | nil =>
+        rw [chanOpsX_read_ok f.s f.realpos want (by intro r h; rw [hfl] at h; cases h), hfl]
+        simp only [List.tail_nil]
+        by_cases he : (f.s.c.inp.take (grant f.s.c.rg want)).isEmpty = true
+        · have hnil := (take_isEmpty_iff _ _ hk).1 he
+          simp only [he, if_true]
+          exact ⟨by simp [pendingX, hnil], fun _ => Or.inr (by simp [hnil])⟩
+        · simp only [he]
+          have hne : f.s.c.inp ≠ [] := fun h => he ((take_isEmpty_iff _ _ hk).2 h)
+          have hlen : 0 < f.s.c.inp.length := List.length_pos_iff.2 hne
+          have := ih
+            { f with s := { c := { f.s.c with inp := f.s.c.inp.drop (grant f.s.c.rg want), rg := f.s.c.rg.tail },
+                            fails := [] },
+                     rbuf := f.rbuf ++ f.s.c.inp.take (grant f.s.c.rg want),
+                     realpos := f.realpos + (f.s.c.inp.take (grant f.s.c.rg want)).length }
+            (by simp; omega)
+          simp only [Bool.false_eq_true, if_false]
+          refine ⟨?_, this.2⟩
+          rw [this.1]; simp [pendingX, List.append_assoc]
+    · rw [if_neg hlt]
+      exact ⟨rfl, fun _ => Or.inl (by show n ≤ f.rbuf.length; omega)⟩
+
+/-- **read(n) over a raising stream.**  For every chunking and every placement of raising fetches: a call that
+    returns hands out exactly the next `n` pending bytes; a call that raises returns nothing and leaves EVERY byte
+    it had already fetched ahead of the caller (in the read-ahead) — so a caller that retries after a timeout
+    sees the stream in order, nothing lost, nothing duplicated. -/
+theorem read_n_keeps_data_on_exception (f : BF ChanX) (n : Nat) :
+    (∀ out, (BufFile.read chanOpsX f (some n)).2 = .ok out →
+        out = (pendingX f).take n ∧ pendingX (BufFile.read chanOpsX f (some n)).1 = (pendingX f).drop n) ∧
+    (∀ e, (BufFile.read chanOpsX f (some n)).2 = .error e → pendingX (BufFile.read chanOpsX f (some n)).1 = pendingX f) := by
+  unfold BufFile.read
+  by_cases hc : f.closed = true
+  · simp [hc]
+  rw [if_neg hc]
+  by_cases hr : (!f.rd) = true
+  · simp [hr]
+  rw [if_neg hr]
+  have hsync : syncForRead chanOpsX f = (f, .ok ()) := by simp [syncForRead, chanOpsX]
+  rw [hsync]
+  simp only
+  by_cases hle : n ≤ f.rbuf.length
+  · rw [if_pos hle]
+    refine ⟨fun out h => ?_, fun e h => (by cases h)⟩
+    injection h with h
+    subst h
+    simp [pendingX, take_append_or _ _ _ (Or.inl hle), drop_append_or _ _ _ (Or.inl hle)]
+  · rw [if_neg hle]
+    obtain ⟨h1, h2⟩ := readFillLoopX n (chanOpsX.bound f.s f.realpos + 1) f (by simp [chanOpsX])
+    rcases hres : readFillLoop chanOpsX n (chanOpsX.bound f.s f.realpos + 1) f with ⟨f1, r1⟩
+    rw [hres] at h1 h2
+    simp only at h1 h2
+    cases r1 with
+    | error e =>
+      simp only
+      exact ⟨fun out h => (by cases h), fun _ _ => h1⟩
+    | ok u =>
+      simp only
+      have h3 := h2 rfl
+      refine ⟨fun out h => ?_, fun e h => (by cases h)⟩
+      injection h with h
+      subst h
+      rw [← h1]
+      simp [pendingX, take_append_or _ _ _ h3, drop_append_or _ _ _ h3]
+
+/-- a raising stream for the witnesses: `abcdefgh` in 1-byte pieces, the third fetch raises -/
+def wX (mode : String) : BF ChanX :=
+  setMode { s := { c := { inp := "abcdefgh".toUTF8.toList, rg := [0, 0, 0, 0], wg := [] },
+                   fails := [false, false, true] } } mode.toList 0 0
+
+def okBytes : Except Err Bytes → Option Bytes
+  | .ok b => some b
+  | .error _ => none
+
+/-- … read(4), retried after the exception, still returns `abcd` -/
+example :
+    let r1 := BufFile.read chanOpsX (wX "rb") (some 4)
+    okBytes r1.2 = none ∧ okBytes (BufFile.read chanOpsX r1.1 (some 4)).2 = some "abcd".toUTF8.toList := by
+  decide +kernel
+
+/-- KNOWN FINDING `exception-drops-data:read()`: `read()` keeps what it has fetched in a local; when a later
+    fetch raises, those bytes are gone — the retried read() starts at `c`. -/
+theorem read_all_drops_data_on_exception_witness :
+    let r1 := BufFile.read chanOpsX (wX "rb") none
+    okBytes r1.2 = none ∧ okBytes (BufFile.read chanOpsX r1.1 none).2 = some "cdefgh".toUTF8.toList := by
+  decide +kernel
+
+/-- KNOWN FINDING `exception-drops-data:readline`: the same for `readline()` (and `__next__`) -/
+theorem readline_drops_data_on_exception_witness :
+    let r1 := readline chanOpsX (wX "rb") none
+    okBytes r1.2 = none ∧ okBytes (readline chanOpsX r1.1 none).2 = some "cdefgh".toUTF8.toList := by
   decide +kernel
 
 end PV.Props.C42
